@@ -233,9 +233,11 @@ Proof.
   intros Hx. cbn [build_m].
   replace (hdr 0 xid) with (hdr 0 xid ++ []) by apply app_nil_r.
   destruct (msg_form KHello 0 xid [] [] [T KHelloElemBitmap [VN 1; VN 8; VB (be32 18)] []] eq_refl eq_refl eq_refl eq_refl eq_refl) as [Hn Hw].
-  rewrite Hn, Hw. cbn [canon map norm writeback flat_map wire layout enc_fields align8 fields_len glen lenrule_of lenround sumN fold_right].
-  rewrite !app_nil_r. cbn [app].
-  replace (8 + 0 + (N.of_nat 2 + (N.of_nat 2 + (N.of_nat (length (be32 18)) + 0)) + 0 + 0)) with 16 by reflexivity.
+  set (E := T KHelloElemBitmap [VN 1; VN 8; VB (be32 18)] []) in *.
+  assert (HL : 8 + fields_len [] [] + sumN (map glen (map norm [E])) = 16) by reflexivity.
+  assert (HB : enc_fields [] [] ++ flat_map wire (map norm [E]) = be_bytes 2 1 ++ be_bytes 2 8 ++ be32 18) by reflexivity.
+  assert (HN : map norm [E] = [E]) by reflexivity.
+  rewrite HL, HB, HN in *. rewrite Hn, Hw. cbn [canon map]. rewrite !app_nil_r. subst E. cbn [canon map].
   rewrite sdec_msg_prologue; try lia; [|reflexivity].
   cbv zeta. cbn [N.eqb]. 
   replace (sdec_hello_elems (S (length (be_bytes 2 1 ++ be_bytes 2 8 ++ be32 18))) (be_bytes 2 1 ++ be_bytes 2 8 ++ be32 18))
